@@ -23,7 +23,7 @@ def run(ctx):
     L = LiveModel(ctx)
     S = StoreModel(ctx)
     A = AckModel(ctx)
-    ctx.floor("R07.1", "presence / readability predicates over the store", len(S.presence_fns) + len(S.readable_fns), 1)
+    ctx.floor("R07.1", "presence / readability predicates over the store", len(S.presence_fns) + len(S.readable_fns) + len(S.filtered_presence_fns), 1)
     # ---- R07.1 / R07.2 ------------------------------------------------------------------------------
     n_api = 0
     for name, f in F.fns.items():
@@ -55,7 +55,7 @@ def run(ctx):
             ctx.check(key[0] == "param", "R07.1", "%s|same-key" % name, "the key tested is the key passed by the caller", f.where(bb))
         # true edge: immediate rejection without effects
         for b, expr, tt, ft in bool_branches(f):
-            if expr[0] == "call" and (expr[1] in S.presence_fns or expr[1] in S.readable_fns):
+            if expr[0] == "call" and (expr[1] in S.presence_fns or expr[1] in S.readable_fns or expr[1] in S.filtered_presence_fns):
                 region = f.reach([tt])
                 eff = [x for x in region if f.term(x)["k"] == "call" and is_effectful(site_effects(F, f, x))]
                 vals = []
@@ -77,10 +77,17 @@ def run(ctx):
                     ctx.check(args[1] == ("param", 2) and args[2] == ("param", 3), "R07.1", "%s|forwards-key-value" % name,
                               "the convenience put forwards its key and value unchanged", f.where(bb))
 
+    # ---- R07.4 the existence test must wait for the shard: try_* lookups answer "absent" while a writer holds it
+    for m in ("try_get", "try_get_mut"):
+        for f, bb, t in S.ops.get(m, []):
+            if f.rec.get("ret") == "bool" or any(tt.get("rpath") == f.name for n, g in F.fns.items() if g.rec.get("reachable") for b2, tt in g.calls()):
+                ctx.bad("R07.4", "%s|non-blocking-existence-test" % f.name,
+                        "an existence test must use a blocking lookup: DashMap::%s reports Locked (treated as absent) whenever another thread write-locks the shard, so a put of a live key would be admitted and overwrite it" % m,
+                        f.where(bb))
     # ---- R07.3 presence agrees with readability -------------------------------------------------------
     for pname in sorted(S.readable_fns):
         ctx.ok("R07.3", "%s|presence-honours-liveness" % pname, "the predicate deciding 'key already exists' is defined through the liveness-filtered lookup", F.fn(pname).where())
-    for pname in sorted(S.presence_fns):
+    for pname in sorted(set(S.presence_fns) | set(S.filtered_presence_fns)):
         f = F.fn(pname)
         used = any(t.get("rpath") == pname for n, g in F.fns.items() if g.rec.get("reachable") and g.kind != "Closure" for b, t in g.calls())
         if not used:
